@@ -179,7 +179,7 @@ Section Init.
     intros gfs Hi Hv Hc H2.
     set (msg := init_msg occ include fs priors dflt).
     assert (Est : init_state occ include fs pf priors dflt = map (mk_mf msg) gfs) by reflexivity.
-    rewrite Est. rewrite (cavity_get G gadd gopp gzero GL).
+    rewrite Est. rewrite (cavity_get G gadd).
     assert (Eown : own i (map (mk_mf msg) gfs) = mk_mf msg (nth i gfs [])).
     { unfold Model.own. change (@nil (var * G)) with (mk_mf msg []). apply map_nth. }
     rewrite Eown, keys_mk_mf. apply has_var_In in Hv. rewrite Hv.
@@ -209,6 +209,7 @@ Section Init.
   Proof.
     intros Hpf Hi Hv. assert (Hin : In (nth i (graph_factors include fs pf) []) (graph_factors include fs pf))
       by (apply nth_In; exact Hi).
+    remember (nth i (graph_factors include fs pf) []) as f0 eqn:Ef0. clear Ef0 Hi.
     unfold graph_factors in Hin. apply in_app_or in Hin. destruct Hin as [Hin|Hin].
     - apply in_map_iff in Hin. destruct Hin as [f [Ef Hf]]. rewrite <- Ef in Hv.
       apply nodup_In in Hv. apply in_concat. exists f. split; assumption.
@@ -393,10 +394,10 @@ Section Run.
     - destruct (visit G gadd gopp gscale gvalid dl sc i st log) as [st1 e] eqn:V.
       destruct (visit_is_project dl sc i st log) as [new [P S]]. rewrite V in P, S. simpl in P, S.
       destruct (stops G stop i e (log ++ [(i, e)])).
-      + injection H as <- <- _. exists [(i, e)]. repeat split.
-        simpl. split; [exists new; rewrite S; exact P|exact S].
+      + injection H as <- <- _. exists [(i, e)]. split; [reflexivity|]. split; [|reflexivity].
+        simpl. split; [exists new; rewrite S; exact P|symmetry; exact S].
       + destruct (IH st1 (log ++ [(i, e)]) H) as [ext [E [C F]]].
-        exists ((i, e) :: ext). rewrite E, <- app_assoc. repeat split.
+        exists ((i, e) :: ext). rewrite E, <- app_assoc. split; [reflexivity|]. split.
         * simpl. split; [exists new; rewrite S; exact P|rewrite S; exact C].
         * simpl. f_equal. exact F.
   Qed.
